@@ -394,7 +394,7 @@ func (m *Machine) conv(fr *frame, tdst, tsrc types.Type, x value) value {
 				out := make([]value, cp)
 				for i := range out {
 					if i < n {
-						out[i] = s.R[i]
+						out[i] = m.sanitizeRune(s.R[i])
 					} else {
 						out[i] = mkBV(32, 0)
 					}
@@ -405,14 +405,18 @@ func (m *Machine) conv(fr *frame, tdst, tsrc types.Type, x value) value {
 				return out[:n]
 			}
 			if eb.Kind() == types.Uint8 {
-				gs, ok := s.Concrete()
-				if !ok {
-					panic(unsupported("[]byte(string) with symbolic runes"))
+				if gs, ok := s.Concrete(); ok {
+					bs := []byte(gs)
+					out := make([]value, len(bs))
+					for i, b := range bs {
+						out[i] = mkBV(8, uint64(b))
+					}
+					return out
 				}
-				bs := []byte(gs)
+				bs := m.strBytes(s)
 				out := make([]value, len(bs))
 				for i, b := range bs {
-					out[i] = mkBV(8, uint64(b))
+					out[i] = b
 				}
 				return out
 			}
@@ -477,7 +481,7 @@ func (m *Machine) slice(fr *frame, instr *ssa.Slice, x, lo, hi, max value) value
 		ln, cp = int64(len(a)), int64(len(a))
 	case Str:
 		str = &xv
-		ln = int64(len(xv.R))
+		ln = int64(len(xv.R)) // (rune count; the byte length is resolved below when needed)
 		cp = ln
 	default:
 		panic(fmt.Sprintf("engine: slice of %T", x))
@@ -495,15 +499,19 @@ func (m *Machine) slice(fr *frame, instr *ssa.Slice, x, lo, hi, max value) value
 		mx = m.concretize(m.toInt64(max.(*Term), instr.Max.Type()), 16, "slice max")
 	}
 	if str != nil {
-		// byte offsets: only supported when every rune before the cut is concrete ASCII
-		gs, ok := str.Concrete()
-		if !ok {
-			panic(unsupported("slicing a symbolic string"))
+		if gs, ok := str.Concrete(); ok {
+			if l < 0 || h < l || h > int64(len(gs)) {
+				m.rtPanic(fr, fmt.Sprintf("slice bounds out of range [%d:%d] with length %d", l, h, len(gs)))
+			}
+			return mkStr(gs[l:h])
 		}
-		if l < 0 || h < l || h > int64(len(gs)) {
-			m.rtPanic(fr, fmt.Sprintf("slice bounds out of range [%d:%d] with length %d", l, h, len(gs)))
+		if hi == nil {
+			h = 1 << 40
+			// open upper bound: up to the end
+			total := m.concretize(m.strLen(*str), 64, "string length")
+			h = total
 		}
-		return mkStr(gs[l:h])
+		return m.strSlice(fr, *str, l, h)
 	}
 	if h < 0 || h > cp {
 		m.rtPanic(fr, fmt.Sprintf("slice bounds out of range [:%d] with capacity %d", h, cp))
